@@ -92,6 +92,7 @@ const (
 )
 
 type Frame struct {
+	loopHead    map[*ssa.BasicBlock][]Val
 	fn          *ssa.Function
 	env         map[ssa.Value]Val
 	names       map[string]Val
